@@ -497,6 +497,29 @@ func scenario(rec *mon.Recorder, c int) bool {
 	}
 	// restart with existing datasets: the replay burst of membership and catalogue entries
 	victim := cl.Nodes[rng.Intn(2)]
+	if !removals && !cl.Nodes[2].Dead() && cl.Nodes[2].In != nil {
+		// node 3 is a member, so the others keep a quorum while the victim is down: the catalogue changes and both
+		// compact their logs. The victim replays its own log first (it knows datasets) and is then sent the leader's
+		// catalogue snapshot on top of them.
+		cl.Crash(victim.Idx)
+		cl.Teardown(victim.Idx)
+		note(fmt.Sprintf("node %d down", victim.Id))
+		via := cl.Nodes[1-victim.Idx]
+		made := 0
+		for i := 0; i < 3; i++ {
+			cl.Guard(8*time.Second, func() {
+				if _, err := via.DM().Create(ctx, &pb.Dataset{Dimension: 3, PartitionCount: 1, ReplicationFactor: 1}); err == nil {
+					made++
+				}
+			})
+		}
+		for _, n := range []*sim.Node{via, cl.Nodes[2]} {
+			cl.TriggerSnapshot(n, uuid.Nil, 0)
+		}
+		time.Sleep(100 * time.Millisecond)
+		note(fmt.Sprintf("%d datasets created and the catalogue log compacted on the others while node %d was down", made, victim.Id))
+		rec.Count("restarts_caught_up_by_catalogue_snapshot_over_known_datasets", 1)
+	}
 	note(fmt.Sprintf("restart node %d", victim.Id))
 	if err := cl.Restart(victim.Idx); err != nil {
 		if strings.Contains(err.Error(), "did not return") {
